@@ -17,6 +17,7 @@ TOK = re.compile(r'''
  |(?P<lid>%(?:"(?:[^"\\]|\\.)*"|[-a-zA-Z$._0-9]+))
  |(?P<gid>@(?:"(?:[^"\\]|\\.)*"|[-a-zA-Z$._0-9]+))
  |(?P<md>![-a-zA-Z$._0-9]*)
+ |(?P<comdat>\$(?:"(?:[^"\\]|\\.)*"|[-a-zA-Z$._0-9]+))
  |(?P<attr>\#[0-9]+)
  |(?P<hexf>0x[KLMHR]?[0-9A-Fa-f]+)
  |(?P<flt>-?[0-9]+\.[0-9]*(?:[eE][-+]?[0-9]+)?)
@@ -175,7 +176,7 @@ def skip_param_attrs(tk):
 def parse_value(tk, ty):
     k, v = tk.next()
     if k == 'lid': return V('local', name=unq(v[1:]), ty=ty)
-    if k == 'gid': return V('global', name=unq(v[1:]), ty=ty)
+    if k == 'gid': return V('global', name=ALIASES.get(unq(v[1:]), unq(v[1:])), ty=ty)
     if k == 'int': return V('int', val=int(v), ty=ty)
     if k == 'flt': return V('flt', val=v, ty=ty)
     if k == 'hexf': return V('hexf', val=v, ty=ty)
@@ -269,14 +270,20 @@ class Module:
         self.funcs = collections.OrderedDict()
         self.decls = collections.OrderedDict()
         self.global_lines = {}
+        self.aliases = {}
 
 LINKAGE = set('''private internal available_externally linkonce weak common appending extern_weak linkonce_odr weak_odr
  external dso_local dso_preemptable default hidden protected dllimport dllexport thread_local unnamed_addr
  local_unnamed_addr externally_initialized'''.split())
 CCONV = set('ccc fastcc coldcc cc x86_stdcallcc x86_fastcallcc x86_thiscallcc'.split())
 
+ALIASES = {}
+
 def parse_module(text):
     m = Module()
+    # aliases first (constructor C1 -> C2 etc.): every later reference is resolved to the aliasee
+    for am in re.finditer(r'^@("(?:[^"\\]|\\.)*"|[-a-zA-Z$._0-9]+) = [^\n]*\balias\b[^\n]*@("(?:[^"\\]|\\.)*"|[-a-zA-Z$._0-9]+)\s*$', text, re.M):
+        ALIASES[unq(am.group(1))] = unq(am.group(2))
     lines = text.split('\n')
     i = 0
     while i < len(lines):
@@ -300,6 +307,8 @@ def parse_module(text):
                 if w == 'thread_local' and tk.accept('('):
                     tk.next(); tk.expect(')')
             if tk.peek()[1] == 'alias':
+                tgt = re.findall(r'@("(?:[^"\\]|\\.)*"|[-a-zA-Z$._0-9]+)', s.split('alias', 1)[1])
+                m.aliases[name] = unq(tgt[-1])
                 continue
             const = tk.next()[1]  # global | constant
             ty = parse_type(tk)
@@ -552,6 +561,7 @@ class Emitter:
         self.called = set()
         self.ext_globals = []
         self.throw_sites = 0
+        self.noop_stubs = []
         self.asm_sites = 0
 
     # ---- types
@@ -600,8 +610,8 @@ class Emitter:
         if key not in self.tnames:
             nm = 'fnp%d' % len(self.tnames)
             self.tnames[key] = nm
-            args = ', '.join(self.ct(a) for a in ft.args) or ('void' if not ft.vararg else '')
-            if ft.vararg: args = (args + ', ...') if args else '...'
+            args = ', '.join(self.ct(a) for a in ft.args) or 'void'
+            if ft.vararg and ft.args: args = args + ', ...'
             self.struct_order.append('typedef %s (*%s)(%s);' % (self.ct(ft.ret), nm, args))
         return self.tnames[key]
 
@@ -815,11 +825,11 @@ def emit_module(m, roots=None):
                 for bl in m.funcs[n].blocks.values():
                     for ins in bl:
                         for g in gref.findall(ins.line):
-                            work.append(unq(g))
+                            work.append(ALIASES.get(unq(g), unq(g)))
             elif n in m.globals and n in m.global_lines:
                 seen.add(n)
                 for g in gref.findall(m.global_lines[n].split('=', 1)[1]):
-                    work.append(unq(g))
+                    work.append(ALIASES.get(unq(g), unq(g)))
         funcs = [f for f in m.funcs.values() if f.name in seen]
     else:
         funcs = list(m.funcs.values())
@@ -853,6 +863,15 @@ def emit_module(m, roots=None):
             if f.name in m.decls and f.name in E.called: called_decls.append(f.name)
             if f.name in m.funcs and f not in funcs and roots:
                 raise NotImplementedError('function referenced but not emitted: ' + f.name)
+    # declared-only libstdc++ functions whose effect is irrelevant here: empty bodies (listed in the .json as assumptions)
+    noop_bodies = []
+    for n in list(called_decls):
+        if NOOP_EXTERN.fullmatch(n):
+            f = m.decls[n]
+            ps = ', '.join('%s p%d' % (E.ct(t), i) for i, (nm, t) in enumerate(f.params)) or 'void'
+            rt = E.ct(f.ret)
+            noop_bodies.append('%s %s(%s) { %s} /* no-op stub */' % (rt, E.gname(n), ps, '' if rt == 'void' else 'return (%s)0; ' % rt))
+            called_decls.remove(n); E.noop_stubs.append(n)
     hdr = ['#ifndef IR2C_GEN_H', '#define IR2C_GEN_H', '#include <stdint.h>', '#include <stddef.h>', '#include "ir_prelude.h"', '']
     hdr += E.struct_order
     hdr += ['']
@@ -864,9 +883,10 @@ def emit_module(m, roots=None):
     body += gl
     body += ['']
     body += bodies
+    body += noop_bodies
     info = {'functions': [f.name for f in funcs], 'called_declared_only': sorted(called_decls),
             'external_globals': sorted(E.ext_globals), 'throw_sites': E.throw_sites,
-            'asm_sites': E.asm_sites}
+            'asm_sites': E.asm_sites, 'noop_stubs': sorted(E.noop_stubs)}
     return '\n'.join(hdr) + '\n', '\n'.join(body) + '\n', info
 
 def emit_func(E, f):
@@ -1128,6 +1148,7 @@ def emit_call(E, f, ins, L, declare):
         if name.startswith('llvm.memset.'): L.append('  ir_memset((uint8_t*)%s, %s, %s);' % (A[0], A[1], A[2])); return
         if name == 'llvm.trap': L.append('  __CPROVER_assert(0, "llvm.trap"); __CPROVER_assume(0);'); return
         if name.startswith('llvm.expect.'): out(A[0]); return
+        if name.startswith('llvm.is.constant.'): out('0'); return   # __builtin_constant_p at -O0: false
         if name.startswith('llvm.ctlz.'):
             b = ins.ty.bits
             fnn = '__builtin_clz' if b <= 32 else '__builtin_clzll'
@@ -1164,8 +1185,12 @@ def emit_call(E, f, ins, L, declare):
         L.append('  __CPROVER_assert(0, "tlx die() not reached"); __CPROVER_assume(0);'); return
     if name == '__cxa_allocate_exception':
         out('ir_alloc_exception(%s)' % A[0]); return
-    if name == '__cxa_free_exception':
+    if name == '__cxa_free_exception' or name == '__cxa_end_catch':
         return
+    if name == '__cxa_begin_catch':
+        out(A[0]); return
+    if name == '__cxa_rethrow':
+        L.append('  __CPROVER_assume(0); /* rethrow inside a handler: handlers are unreachable (exception edges dropped) */'); return
     if name == '__cxa_throw':
         ti = args[1]
         tn = None
@@ -1180,6 +1205,8 @@ def emit_call(E, f, ins, L, declare):
             if pat in name: kind = kd; break
         E.throw_sites += 1
         L.append('  ir_throw_event(%d); __CPROVER_assume(0); /* %s */' % (kind, name)); return
+    if name in LIBC_RENAME and name in E.m.decls:
+        out('%s(%s)' % (LIBC_RENAME[name], ', '.join(A))); return
     if name:
         E.extern_used.add(name)
         E.called.add(name)
@@ -1187,6 +1214,13 @@ def emit_call(E, f, ins, L, declare):
     else:
         callee = '(%s)' % E.val(cal, f)
     out('%s(%s)' % (callee, ', '.join(A)))
+
+# std::allocator<T> constructors/destructors (stateless) and exception-object constructors/destructors (the thrown
+# object's content is never inspected; the throw itself is the observable event)
+NOOP_EXTERN = re.compile(r'_ZNSaI\w+EC[12]E(v|RKS_)|_ZNSaI\w+ED[12]Ev|_ZNSt\d+(out_of_range|range_error|runtime_error|invalid_argument|length_error|logic_error|overflow_error|bad_alloc)(C[12]E(PKc|RKNSt7__cxx1112basic_stringIcSt11char_traitsIcESaIcEEE)|D[012]Ev)')
+
+# libc byte/string functions that are only declared in the IR: own loop models in tools/ir_prelude.c
+LIBC_RENAME = {'memcmp': 'ir_memcmp', 'bcmp': 'ir_memcmp', 'strncmp': 'ir_strncmp', 'strcmp': 'ir_strcmp', 'strlen': 'ir_strlen', 'memchr': 'ir_memchr'}
 
 # exception kinds (observable "throw event", see DESIGN 2.2); 99 = any other type
 THROW_KINDS = {'_ZTISt12out_of_range': 1, '_ZTISt11range_error': 2, '_ZTISt13runtime_error': 3,
